@@ -33,6 +33,18 @@ BASE_POINTER_CALLERS = {
 }
 
 
+def lookup_x(prog, unit, name):
+    """definition of name: in the unit, in the header unit, or (external linkage) in another unit analysed"""
+    g = prog.lookup(unit, name)
+    if g is not None and g.blocks:
+        return g
+    for u2 in prog.units.values():
+        g2 = u2.funcs.get(name)
+        if g2 is not None and g2.blocks:
+            return g2
+    return g
+
+
 def callee_closure(prog, unit, fn, stop_at=()):
     seen, work = {}, [fn]
     while work:
@@ -42,7 +54,7 @@ def callee_closure(prog, unit, fn, stop_at=()):
         seen[f.name] = f
         for bid, s, x in f.calls():
             if x.get('fn') and x['fn'] not in stop_at:
-                g = prog.lookup(unit if f.unit is unit else f.unit, x['fn'])
+                g = lookup_x(prog, unit if f.unit is unit else f.unit, x['fn'])
                 if g is not None and g.blocks:
                     work.append(g)
     return seen
@@ -305,7 +317,7 @@ def run(tier='quick', repo=None):
                         if x.get('k') == 'call' and x.get('fn'):
                             if BYTE_WRITERS.match(x['fn']):
                                 bs.append((fnc.name, x.get('l'), 'call to %s' % x['fn']))
-                            g = prog.lookup(u, x['fn'])
+                            g = lookup_x(prog, u, x['fn'])
                             if g is not None and g.blocks and not g.name.endswith('_control'):
                                 bs += byte_stores(prog, u, g)
             inst = '%s:%s' % (ctlname, lab['n'])
